@@ -984,7 +984,11 @@ def equivalent(rx_a, rx_b, txts):
 # ---------------------------------------------------------------------------------------------
 META = list('\\^$()[]{}?+*.|/-')
 FRAGMENTS = ['(?:', '(?P<n>', '(?=', '(?<!', '\\A', '\\Z', '\\b', '\\d', '\\1', '[a-z]', '{2,3}', 'a|b',
-             '(?i:', '?:', '(a)', '[^', '\\\\', '$', 'a$', '\\[', ')(', '{,2}', '{3}', '(?(n)', '(?P=n)', '\\n', '\\']
+             '(?i:', '?:', '(a)', '[^', '\\\\', '$', 'a$', '\\[', ')(', '{,2}', '{3}', '(?(n)', '(?P=n)', '\\n', '\\',
+             # escape sequences *spelled out* as text (what one greps source code for): any display / re-parsing step that
+             # rewrites them changes a literal
+             '\\x0c', '\\x07', '\\x0b', '\\x00', '\\0', '\\07', '\\f', '\\v', '\\a', '\\t', '\\r', '\\e', '\\u000c', '\\N{DASH}',
+             '\\g<1>', '\\Q', '\\E', '(?#', '(?!', '(?<=', '(?>', '(?P>', '!', '=!', '<!', '\x007', '\x000', '>', '<n>', 'a>b']
 
 ALL_FEATURES = ('cat', 'alt', 'enc', 'q', 'grp', 'cap', 'anchor', 'look', 'cls', 'tok', 'empty', 'wb',
                 'meta', 'uni', 'ws', 'frag', 'strarg')
@@ -1044,7 +1048,7 @@ def simple_class_strategy(features):
     from hypothesis import strategies as st
     safe = st.sampled_from(list('abcxyzABZ019_ ,;:!#%&<>=@~"\''))
     risky = st.sampled_from(list('?*+{}().|$^-][\\/\\'))
-    c = st.one_of(safe, safe, risky) if 'meta' in features else safe
+    c = st.one_of(safe, safe, risky, risky, st.sampled_from(list('\n\r\t\x0b\x0c\x00'))) if 'meta' in features else safe
     named = st.sampled_from(NAMED_CLASSES).map(lambda n: ['named', n])
     word = st.booleans().map(lambda g: ['word', g])
     frm = st.lists(c, min_size=1, max_size=4, unique=True).map(lambda xs: ['from', [['c', x] for x in xs]])
@@ -1378,7 +1382,7 @@ def bracket_heavy_leaf(features=ALL_FEATURES):
     """Leaves for wide patterns: mostly bracket classes, many of them holding unbalanced parentheses, '|' or brackets
     (what the library's own text-based type inference has to see through), plus ordinary leaves."""
     from hypothesis import strategies as st
-    ch = st.sampled_from(list('()|<>[]{}a'))
+    ch = st.sampled_from(list('()|<>[]{}a()|\n\r!'))      # '\n': the one character the dot does not match without DOTALL
     frm = st.lists(ch, min_size=1, max_size=3, unique=True).map(lambda xs: ['cls', ['from', [['c', x] for x in xs]]])
     bfrm = st.lists(ch, min_size=1, max_size=2, unique=True).map(lambda xs: ['cls', ['butfrom', [['c', x] for x in xs]]])
     named = st.sampled_from(['AnyLetter', 'AnyDigit', 'AnyButDigit', 'AnyPunctuation', 'AnyUppercaseLetter']).map(lambda n: ['cls', ['named', n]])
@@ -1391,7 +1395,7 @@ def hostile_tree(max_leaves=4):
     brackets / '|', and literals that are single metacharacters."""
     from hypothesis import strategies as st
     bs = st.sampled_from([['tok', 'Backslash'], ['lit', '\\', True], ['lit', '\\', False], ['lit', 'a\\', True], ['lit', '\\\\', True]])
-    meta = st.sampled_from(list('()[]|{}$^.*+?-')).map(lambda c: ['lit', c, True])
+    meta = st.sampled_from(list('()[]|{}$^.*+?-!<>=:#P\n')).map(lambda c: ['lit', c, True])
     plain = st.sampled_from(['x', 'ab', '1']).map(lambda s: ['lit', s, True])
     leaf = st.one_of(bs, bs, bracket_heavy_leaf(['meta']), bracket_heavy_leaf(['meta']), meta, plain)
 
@@ -1405,7 +1409,17 @@ def hostile_tree(max_leaves=4):
                          st.tuples(st.sampled_from(['opt', 'star', 'plus']), sp, child, st.booleans()).map(lambda t: ['q', t[0], t[1], t[2], 0, None, t[3]]),
                          st.tuples(sp, child, st.booleans()).map(lambda t: ['grp', t[0], t[1], t[2]]),
                          st.tuples(sp, child).map(lambda t: ['cap', t[0], t[1], None]))
-    return st.recursive(leaf, extend, max_leaves=max_leaves)
+    # two halves of an unbalanced delimiter pair in different alternatives (inside classes, possibly negated / repeated / next to a
+    # raw newline), and the alternation then used as an operand: the grouping of the alternation must survive
+    def half(chars, must):
+        members = st.lists(st.sampled_from(list(chars)), min_size=1, max_size=3, unique=True).map(lambda xs: sorted(set(xs) | {must}))
+        cls = st.tuples(members, st.booleans()).map(lambda t: ['cls', ['butfrom' if t[1] else 'from', [['c', x] for x in t[0]]]])
+        return st.one_of(cls, cls.map(lambda c: ['q', 'plus', 'class', c, 0, None, True]))
+    sp = st.sampled_from(['class', 'method'])
+    pair = st.tuples(sp, half('(<[{a\n\n', '('), half(')>]}a\n\n', ')'), st.sampled_from(['class', 'method', 'op', 'method_left']), plain, st.integers(0, 3)).map(
+        lambda t: [['cat', t[3], [['alt', t[0], [t[1], t[2]]], t[4]]], ['cat', t[3] if t[3] != 'method_left' else 'class', [t[4], ['alt', t[0], [t[1], t[2]]]]],
+                   ['anchor', 'lend', 'class', ['alt', t[0], [t[1], t[2]]]], ['look', 'fb', 'class', ['alt', t[0], [t[1], t[2]]], [t[4]]]][t[5]])
+    return st.one_of(*[st.recursive(leaf, extend, max_leaves=max_leaves)] * 4, pair)
 
 
 def bounded_texts(tree, txts):
